@@ -1053,7 +1053,7 @@ def gen_trace(seed):
         if ro.random() < p_odd:
             # payloads a careless strip()/split()/re-encode would damage
             t = ro.choice([" " + t, t + " ", t + "\n", "\t" + t, t + "\u00e9" if not small_buf else t + "_", t + "x" * 300, t + " " + t,
-                           "", "0"])       # the empty message and "0" are messages too (a truthiness test would drop them)
+                           "", "0", t + "\x00", "\x00", t + "\x00" + t, t + "\r", "\x7f" + t])       # the empty message and "0" are messages too (a truthiness test would drop them)
         return t
 
     def unknown_name(h):
